@@ -130,6 +130,14 @@ check("C16", "exploration",
       "Trusts xlsxwriter as independent producer (numbers stored with %.16G) and Python's float repr as 'shortest text'.",
       "independent producer -> real reader comparison, per cell, + writer round trip", "DESIGN.md 5/C16")
 
+check("C09", "exploration",
+      "Generated valid CIDs (four formats, all field types with rules from the C02 grammars and examples the field model accepts, "
+      "0-3 checks) are loaded through Cid.read; meaning-preserving rewrites must stay accepted and parse to the same interface "
+      "(observed through the public attributes); each entry of a ~45-defect catalogue is applied at every applicable row and must "
+      "be refused with an InterfaceError whose text names that row.",
+      "Defect catalogue and rewrite set are those of DESIGN.md; field rows after check rows and leading blanks in check rules are unjudged.",
+      "boundary observation of Cid.read under rewrite-equivalence and single-defect injection at every row", "DESIGN.md 5/C09")
+
 NOT_YET = "check not built yet in this session; see DESIGN.md section 5 for the planned monitor"
 
 def main():
